@@ -6,6 +6,7 @@ context, statically sized bit regions are multiples of 8, repeat elements are ne
 """
 from .common import tag, untag
 from . import refmodel as M
+from .recipes import is_named_pair
 
 ENCODINGS = ["ascii", "utf8", "utf16", "utf_16_le", "utf_16_be", "utf32", "utf_32_le", "utf_32_be"]
 INT_NAMES = sorted(M.INTNAMES)
@@ -128,6 +129,9 @@ class Gen:
         sub = lambda t=False, d=depth - 1: self.recipe(d, t, None)
         if c < 0.22:
             return self.struct(depth, tail)
+        if c < 0.245:
+            # same member grammar as Struct (named lengths/counts/selectors, derived members, dependants), values given as a list
+            return ["Sequence", [m for m in self.struct(depth, tail, inseq=True)[1]]]
         if c < 0.27:
             n = r.randint(1, self.arity)
             return ["Sequence", [[None if r.random() < 0.7 else "s%d" % i, self.recipe(depth - 1, tail and i == n - 1)] for i in range(n)]]
@@ -168,12 +172,22 @@ class Gen:
             return ["Padded", self.len_for(inner), inner, tag(r.choice([b"\x00", b"*"]))]
         if c < 0.75:
             return ["Aligned", r.randint(2, 9), self.recipe(depth - 1, False), tag(r.choice([b"\x00", b"\xaa"]))]
+        if c < 0.765 and self.fragment == "full":
+            return self.bitstream(tail)
         if c < 0.80:
             return self.bitregion()
         if c < 0.83:
             return ["ByteSwapped", self.fixed_leaf()]
         if c < 0.86 and tail and self.fragment == "full":
             return ["ProcessXor", r.choice([0, 1, 0x5a, 255, tag(b"\x01\x02"), tag(b"\x00")]), self.recipe(depth - 1, True)]
+        if c < 0.875 and tail and self.fragment == "full":
+            g = r.choice([1, 2, 3, 3, 4, 5, 8])
+            amount = r.choice([0, 1, 7, 8, 8, 16, 24, -8, -3, 8 * g, 8 * g + 8, 13, r.randint(-70, 70)])
+            inner = r.choice([["Bytes", g * r.randint(0, 3)], ["Array", r.randint(1, 2), ["BytesInteger", g, False, r.random() < 0.3]],
+                              ["Struct", [["p", ["Bytes", g]], ["q", ["BytesInteger", g, True, False]]]]])
+            return ["ProcessRotateLeft", amount, g, inner]
+        if c < 0.886 and tail and not self.strict and self.fragment == "full":
+            return self.select_family()
         if c < 0.90:
             return ["Optional", self.optional_inner()] if (tail and not self.strict) else ["Hex", self.int_leaf()]
         if c < 0.94:
@@ -181,6 +195,25 @@ class Gen:
         if c < 0.97:
             return ["OneOf", ["name", "Byte"], sorted(set(r.randrange(256) for _ in range(r.randint(1, 5))))]
         return ["AlignedStruct", r.randint(2, 5), [["a%d" % i, self.fixed_leaf()] for i in range(r.randint(1, 3))]]
+
+    def select_family(self):
+        """alternatives (unnamed recipes) that cannot be confused after a rebuild: either each demands the end of the data
+        after a different fixed length, or they hold values of different types / different keys - an earlier alternative then
+        fails on build only after it has already produced some bytes"""
+        r = self.rng
+        B = ["name", "Byte"]
+        T = ["name", "Terminated"]
+        c = r.random()
+        if c < 0.35:
+            ws = r.sample([["name", "Int8ub"], ["name", "Int16ub"], ["name", "Int24ub"], ["name", "Int32ul"], ["name", "Int64sb"]], r.randint(2, 3))   # (not Bytes: it builds integers too)
+            return ["Select", [["Struct", [["k", B], ["v", w], [None, T]]] for w in ws]]
+        if c < 0.55:
+            return ["Select", [["Sequence", [[None, B], [None, ["PascalString", B, "ascii"]], [None, T]]], ["Sequence", [[None, B], [None, ["name", "Int16ub"]], [None, T]]]]]
+        if c < 0.75:
+            return ["Select", [["Struct", [["a", B], ["s", ["CString", "ascii"]], [None, T]]], ["Struct", [["a", B], ["n", ["name", "Int16ul"]], [None, T]]], ["Struct", [["a", B], [None, T]]]]]
+        if c < 0.9:
+            return ["Select", [["Struct", [["t", ["Const", 1, B]], ["x", ["name", "Int16ub"]]]], ["Struct", [["t", ["Const", 2, B]], ["y", ["Bytes", 3]]]], ["Struct", [["t", B], ["z", ["name", "Int32ub"]]]]]]
+        return ["Select", [["Sequence", [[None, ["OneOf", B, [1, 2, 3]]], [None, ["OneOf", B, [1, 2]]]]], ["Sequence", [[None, ["OneOf", B, [1, 2, 3, 4, 5]]], [None, ["Bytes", 2]]]]]]
 
     def optional_inner(self):
         # Optional at the end of a region: alternatives that cannot be confused with "nothing"
@@ -270,7 +303,23 @@ class Gen:
             i += 1
         return ["BitStruct", ms] if r.random() < 0.5 else ["Bitwise", ["Struct", ms]]
 
-    def struct(self, depth, tail):
+    def bitstream(self, tail):
+        """a bit region whose size is not known statically (the streaming implementation): the width of a field, a count or
+        a greedy tail is discovered while parsing.  Total widths are multiples of 8 by construction."""
+        r = self.rng
+        c = r.random()
+        w = r.randint(1, 7)
+        head = [["w", ["BitsInteger", w, False, False]], [None, ["Padding", 8 - w]]]
+        if c < 0.3 and tail:
+            # leftover bits of a partially consumed byte followed by a read-to-end field
+            return ["Bitwise", ["Struct", [["w", ["BitsInteger", w, False, False]], ["rest", ["name", "GreedyBytes"]]]]]
+        if c < 0.5 and tail:
+            return ["Bitwise", ["Struct", head + [["xs", ["GreedyRange", ["BitsInteger", r.choice([4, 8, 16, 24]), r.random() < 0.5, False]]]]]]
+        if c < 0.75:
+            return ["Bitwise", ["Struct", [["n0", ["name", "Nibble"]], ["f", ["name", "Flag"]], [None, ["Padding", 3]], ["xs", ["Array", ["this", "n0"], ["BitsInteger", r.choice([8, 16]), False, r.random() < 0.3]]]]]]
+        return ["Bitwise", ["Struct", [["n0", ["BitsInteger", 3, False, False]], ["v", ["BitsInteger", 13, True, False]], ["d", ["Bytewise", ["Bytes", ["this", "n0"]]]]]]]
+
+    def struct(self, depth, tail, inseq=False):
         r = self.rng
         n = r.randint(1, self.arity)
         ms = []
@@ -281,8 +330,13 @@ class Gen:
             last = (i == n - 1)
             c = r.random()
             name = "m%d" % i
-            if c < 0.16:
+            if c < 0.13:
                 ms.append(["n%d" % i, ["name", r.choice(SMALL)]])
+                ints.append("n%d" % i)
+            elif c < 0.16:
+                # a length/count/selector that build derives by itself
+                ms.append(["n%d" % i, r.choice([["Default", ["name", "Byte"], r.randint(0, 3)], ["Const", r.randint(0, 3), ["name", "Byte"]],
+                                                 ["Default", ["name", "Int16ul"], r.randint(1, 2)]])])
                 ints.append("n%d" % i)
             elif c < 0.22:
                 ms.append(["f%d" % i, ["name", "Flag"]])
@@ -307,8 +361,8 @@ class Gen:
                     ms.append([None, ["Check", ["bin", "<", ref, 5]]])
             elif c < 0.46 and flags:
                 ms.append([name, ["If", ["this", r.choice(flags)], self.recipe(depth - 1, tail and last)]])
-            elif c < 0.52 and not last:
-                # count derived at build time
+            elif c < 0.52 and not last and not inseq:
+                # count derived at build time (a Sequence's later members are not visible while building)
                 ms.append(["c%d" % i, ["Rebuild", ["name", r.choice(["Byte", "VarInt", "Int16ul"])], ["fn", "len", ["this", "items%d" % i]]]])
                 ms.append(["items%d" % i, ["Array", ["this", "c%d" % i], self.nonzero(depth - 1)]])
                 i += 1
@@ -417,10 +471,18 @@ def genval(r, rng, sc, name=None):
     if k == "Mapping":
         key = rng.choice(a[1])[0]
         return untag(key) if isinstance(key, dict) else key
-    if k in ("Const", "Computed", "Check", "Padding", "Rebuild"):
+    if k in ("Const", "Computed", "Check", "Padding", "Rebuild", "Peek"):
         return None
+    if k in ("Lazy", "RawCopy"):
+        return genval(a[0], rng, sc, name) if k == "Lazy" else {"value": genval(a[0], rng, sc, name)}
     if k == "Default":
-        return None if rng.random() < 0.5 else genval(a[0], rng, sc)
+        return None if rng.random() < 0.5 else genval(a[0], rng, sc, name)
+    if k == "Bitwise" and a[0][0] == "Struct" and a[0][1] and a[0][1][-1][1] == ["name", "GreedyBytes"]:
+        # a read-to-end field inside a bit region holds one byte (0/1) per bit; the region must end on a byte boundary
+        v = genval(a[0], rng, sc)
+        fixed = sum(M.size(m, M.new_scope(sc)) for _, m in a[0][1][:-1])
+        v[a[0][1][-1][0]] = bytes(rng.randrange(2) for _ in range(-fixed % 8 + 8 * rng.randint(0, 2)))
+        return v
     if k in ("Hex", "HexDump", "ByteSwapped", "NullStripped", "Bitwise", "Bytewise"):
         return genval(a[0], rng, sc)
     if k == "Renamed":
@@ -447,7 +509,7 @@ def genval(r, rng, sc, name=None):
             v = genval(m, rng, s2, nm)
             out.append(v)
             if nm:
-                s2[nm] = v
+                s2[nm] = v if v is not None or not M.is_buildnone(m) else scope_value(m, s2)
         return out
     if k in ("Array", "LazyArray"):
         try:
@@ -477,8 +539,13 @@ def genval(r, rng, sc, name=None):
         return genval(a[2], rng, sc) if len(a) > 2 and a[2] is not None else None
     if k == "Optional":
         return genval(a[0], rng, sc) if rng.random() < 0.6 else None
+    if k == "Select":
+        alt = rng.choice(a[0])
+        return genval(alt[1] if is_named_pair(alt) else alt, rng, sc)
     if k in ("Prefixed", "FixedSized", "Padded", "Aligned", "ProcessXor", "Pointer"):
         return genval(a[1], rng, sc)
+    if k == "ProcessRotateLeft":
+        return genval(a[2], rng, sc)
     if k == "NullTerminated":
         return genval(a[0], rng, sc)
     raise M.ModelGap("genval " + k)
